@@ -192,6 +192,12 @@ func (x *run) querySet(views []*model.BugView, people map[string]model.Person, s
 			qs = append(qs, withSort(model.Q{Metadata: [][2]string{{k, metas[k]}}}))
 		}
 	}
+	// an empty value is a value: it selects the bugs that hold the key with nothing in it, not
+	// the bugs without the key (and together with another pair it is any-of as usual)
+	qs = append(qs, withSort(model.Q{Metadata: [][2]string{{"origin", ""}}}), withSort(model.Q{Metadata: [][2]string{{"never-set", ""}}}))
+	if len(mks) > 0 && !strings.ContainsAny(mks[0]+metas[mks[0]], `"':`+"\n") {
+		qs = append(qs, withSort(model.Q{Metadata: [][2]string{{mks[0], metas[mks[0]]}, {"never-set", ""}}}))
+	}
 	for _, m := range sortedKeysB(markers) {
 		qs = append(qs, withSort(model.Q{Search: []string{m}}), withSort(model.Q{Search: []string{m}, Status: []string{"open"}}))
 	}
